@@ -37,6 +37,7 @@ Definition pend (p : lpc) : bool :=          (* counted in handlersWg *)
   match p with LNone | LRange | LPubClose | LWgDone => true | _ => false end.
 Definition in_map_pc (p : lpc) : bool :=     (* still in r.handlers *)
   match p with LCloseStopped | LDone => false | _ => true end.
+Definition pendh (x : hst) : bool := pend (h_loop x) && negb (h_removed x).
 Definition past_range (p : lpc) : bool :=
   match p with LNone | LRange => false | _ => true end.
 
@@ -52,7 +53,8 @@ Record HRec (f4 : bool) (x : hst) : Prop := {
   r_done : h_stoppedCh x = true <-> h_loop x = LDone;
   r_open : h_subOpen x = true -> h_subs x = 1;
   r_hc : h_loop x = LNone -> h_hc x = CNone;
-  r_sch2 : h_started x = true -> h_startedCh x = true
+  r_sch2 : h_started x = true -> h_startedCh x = true;
+  r_removed : h_removed x = true -> h_started x = false /\ h_mid x = false
 }.
 
 Definition run_started (p : rpc) : bool :=
@@ -72,7 +74,7 @@ Record SInv (s : rstate) : Prop := {
   i_hl_wat : hlock s = Some OWatch <-> wat_hl (wat s) = true;
   i_fresh : forall h, nexth s <= h -> hs s h = h0;
   i_hrec : forall h, HRec (fix4 s) (hs s h);
-  i_inmap : forall h, h < nexth s -> h_inmap (hs s h) = in_map_pc (h_loop (hs s h));
+  i_inmap : forall h, h < nexth s -> h_inmap (hs s h) = in_map_pc (h_loop (hs s h)) && negb (h_removed (hs s h));
   i_mid : forall h, h_mid (hs s h) = true -> lockpc s = Some (HMid1 h);
   i_mid1 : forall h, lockpc s = Some (HMid1 h) -> h_mid (hs s h) = true;
   i_mid2 : forall h, lockpc s = Some (HMid2 h) ->
@@ -81,7 +83,7 @@ Record SInv (s : rstate) : Prop := {
   i_running : runningCh s = true -> run_closed_running (mainp s) = true;
   i_run_n : main_hl (mainp s) = true -> run_n s = nexth s;
   i_run_n_le : run_n s <= nexth s;
-  i_run_all : run_started (mainp s) = true -> forall h, h < run_n s -> h_started (hs s h) = true;
+  i_run_all : run_started (mainp s) = true -> forall h, h < run_n s -> h_removed (hs s h) = false -> h_started (hs s h) = true;
   i_isrun : isRunning s = true <-> mainp s <> RNone;
   i_tmain : forall t, thr s t = TMain -> t = maint s /\ mainp s <> RNone;
   i_rundone : forall t, thr s t <> TRunDone true;
@@ -89,7 +91,7 @@ Record SInv (s : rstate) : Prop := {
            h < nexth s /\ (a = true -> h_startedCh (hs s h) = true);
   i_stopcall : forall t h a, thr s t = TStopCall h a -> h_started (hs s h) = true;
   i_stopdone : forall t h r, thr s t = TStopDone h true r -> fix4 s = true -> r = StopOk;
-  i_cnt : hwg s = cnt (fun h => pend (h_loop (hs s h))) (nexth s);
+  i_cnt : hwg s = cnt (fun h => pendh (hs s h)) (nexth s);
   i_nopanic : panicked s = false
 }.
 
